@@ -277,11 +277,11 @@ def run(ctx: Ctx, rep: Report) -> None:
     check_discovery(ctx, rep)
 
 
-def check_community_model(ctx: Ctx, rep: Report, cls: ClassInfo, want_version: int) -> None:
+def check_community_model(ctx: Ctx, rep: Report, cls: ClassInfo, want_version: int, rule: str = "C07-R4") -> None:
     proc = cls.methods.get("process_incoming_message")
     gen = cls.methods.get("generate_request_message")
     if proc is None or gen is None:
-        rep.undecided("C07-R4", f"{cls.module.path} ({cls.name})", "community model implements both directions", "method missing")
+        rep.undecided(rule, f"{cls.module.path} ({cls.name})", "community model implements both directions", "method missing")
         return
     defs = ctx.defs(proc)
     # fields of the incoming message: tuple-unpack or subscripts of the message parameter
@@ -359,15 +359,15 @@ def check_community_model(ctx: Ctx, rep: Report, cls: ClassInfo, want_version: i
     for v_ok, c_ok, label in [(False, True, "wrong version"), (True, False, "wrong community"), (False, False, "both wrong")]:
         outs = simulate(cfg, scenario(v_ok, c_ok))
         ok = bool(outs) and all(o.kind == "raise" and raised_class(ctx, proc, o) is not None and ctx.r.is_subclass(raised_class(ctx, proc, o), snmp_error) for o in outs)
-        rep.check(ok, "C07-R4", site, f"{cls.name}: a response with {label} is refused with SnmpError on every path", f"outcomes: {outs}", key=f"{proc.key}|{label.replace(' ', '-')}")
+        rep.check(ok, rule, site, f"{cls.name}: a response with {label} is refused with SnmpError on every path", f"outcomes: {outs}", key=f"{proc.key}|{label.replace(' ', '-')}")
     outs = simulate(cfg, scenario(True, True))
     ret_ok = bool(outs) and all(o.kind == "return" and isinstance(o.stmt, ast.Return) and o.stmt.value is not None and field_index(o.stmt.value) == 2 for o in outs)
-    rep.check(ret_ok, "C07-R4", site, f"{cls.name}: a matching response returns the PDU element of the message", f"outcomes: {outs}", key=f"{proc.key}|accept-matching")
+    rep.check(ret_ok, rule, site, f"{cls.name}: a matching response returns the PDU element of the message", f"outcomes: {outs}", key=f"{proc.key}|accept-matching")
     consts = [c for c in compared if c is not None]
     agree = emitted is not None and bool(consts) and all(c == emitted for c in consts)
     rep.check(
         agree,
-        "C07-R4",
+        rule,
         site,
         f"{cls.name}: the version constant checked on input equals the one emitted",
         f"emitted={emitted!r} compared={sorted(set(map(repr, consts)))}",
@@ -375,7 +375,7 @@ def check_community_model(ctx: Ctx, rep: Report, cls: ClassInfo, want_version: i
     )
     rep.check(
         emitted == want_version,
-        "C07-R4",
+        rule,
         gen.site(),
         f"{cls.name}: emitted version constant is {want_version} (RFC 1157 / RFC 1901)",
         f"emitted={emitted!r}",
